@@ -568,7 +568,7 @@ func TestVerif_C13_e2eh2(t *testing.T) {
 	base := "http://" + peer.ln.Addr().String()
 	flows := []string{"single", "single", "single", "retry", "redirect"}
 	features := []string{"", "", "", "1xx", "long", "many", "trailer", "empty-value"}
-	n := verifh.N(120, 4000)
+	n := verifh.N(160, 4000)
 	reqAsync := verifh.N(2, 40)
 	var pend []*c13Pending
 	for c := 0; c < n; c++ {
@@ -605,6 +605,10 @@ func TestVerif_C13_e2eh2(t *testing.T) {
 			cnt.add(s, "req-body-via-"+sc.bodyVia)
 		}
 		pend = append(pend, p)
+		if len(pend) >= 200 { // judge in batches: the recorded dumps are large
+			c13Finish(t, s, pend)
+			pend = nil
+		}
 	}
 	c13Finish(t, s, pend)
 	for _, must := range []string{"flow=retry", "flow=redirect", "feature=long", "feature=trailer", "feature=many", "feature=1xx", "level=both", "req-body-via-reader", "baseline-ok-h2"} {
